@@ -1,6 +1,7 @@
 """C06 - transaction blocks are all-or-nothing, isolated, nestable, thread-owned."""
 
 import collections
+import os
 
 from .. import common, gen, lin, observe, probe
 from ..driver import CacheDriver, Mismatch
@@ -22,7 +23,7 @@ RULE = ('(a) generated block bodies (reads/sets/replaces/deletes/pops/pulls/incr
 DISTINCT = ('abort_cells', 'block_schedules')
 REQUIRED = ('aborts_judged', 'commits_judged', 'nested_blocks', 'aborted_after_file_removal', 'aborted_after_file_write',
             'deque_blocks', 'index_blocks', 'fanout_blocks', 'block_schedules_run', 'snapshot_reads',
-            'foreign_thread_attempts')
+            'foreign_thread_attempts', 'blocks_whose_commit_had_to_wait')
 ASSUMPTIONS = ('the reference model is flat: only the outermost block exit decides commit or rollback',
                'snapshot reads use one deferred read transaction of an independent SQLite connection (WAL)')
 
@@ -535,6 +536,96 @@ def read_snapshot(d, obs, keys):
     return snap
 
 
+def block_commit_waiting(dc, sc, res, rng, label):
+    """The COMMIT of a block has to wait: the directory uses a rollback journal and another connection is inside a read
+    transaction when the block ends, until the second or third attempt to commit has failed.  Blocks that retry
+    (Index, Deque, FanoutCache, Cache.transact(retry=True)) then commit completely; Cache.transact() without retry raises
+    Timeout and leaves everything as it was."""
+    from . import c14
+    kind = rng.choice(['cache-retry', 'cache-noretry', 'index', 'deque', 'fanout'])
+    journal = rng.choice(['delete', 'truncate', 'persist'])
+    d = sc.new()
+    big = lambda t: (t + ';') * 40      # noqa: E731
+    if kind == 'fanout':
+        obj = dc.FanoutCache(d, shards=1, timeout=0, disk_min_file_size=T, sqlite_journal_mode=journal)
+        base, db_dir = obj, os.path.join(d, '000')
+    else:
+        base = dc.Cache(d, timeout=0, disk_min_file_size=T, sqlite_journal_mode=journal, eviction_policy='none')
+        obj = dc.Index.fromcache(base) if kind == 'index' else dc.Deque.fromcache(base) if kind == 'deque' else base
+        db_dir = d
+    if kind == 'deque':
+        obj.extend([big('old0'), 'old1'])
+    else:
+        obj['old'] = big('old')
+        obj['keep'] = 'k'
+    reader = c14.Reader(db_dir)
+    ctrl = c14.ReaderFault(reader, rng.randrange(2, 4))
+    wit = {'label': label, 'kind': kind, 'journal_mode': journal, 'reader_leaves_after_failed_commits': ctrl.k}
+    try:
+        def content():
+            fresh = dc.Cache(db_dir)
+            try:
+                return sorted((repr(k), repr(fresh.get(k))) for k in fresh)
+            finally:
+                fresh.close()
+        before = content()
+        reader.take()
+        probe.set_controller(ctrl)
+        block = obj.transact(retry=True) if kind == 'cache-retry' else obj.transact()
+        try:
+            with block:
+                if kind == 'deque':
+                    obj.append(big('new'))
+                    obj.popleft()
+                else:
+                    obj['old'] = big('replaced')
+                    obj['new'] = big('new')
+                    del obj['keep']
+            got = ('ok', None)
+        except dc.Timeout:
+            got = ('Timeout', None)
+        except Exception as exc:      # noqa: BLE001
+            got = ('raise', '%s: %s' % (type(exc).__name__, exc))
+        probe.set_controller(None)
+        still = reader.held
+        reader.release()
+        res.count('evaluations')
+        res.count('blocks_whose_commit_had_to_wait')
+        res.seen('cells', ('commit-waiting', kind, journal, got[0]))
+        if not ctrl.failed:
+            res.count('blocks_whose_commit_did_not_conflict')
+            return
+        after = content()
+        if kind == 'cache-noretry':
+            if got[0] != 'Timeout' or after != before:
+                res.violation('Cache.transact() whose COMMIT could not get its lock: expected Timeout and no change, got %r, '
+                              'changed: %s' % (got, after != before), wit)
+                return
+        else:
+            if kind == 'deque':
+                want = sorted([(repr(k), repr(v)) for k, v in []])       # keys are queue numbers: compare values only
+                vals_before = [v for _, v in before]
+                vals_after = sorted(v for _, v in after)
+                ok = vals_after == sorted([repr('old1'), repr(big('new'))])
+            else:
+                ok = after == sorted([(repr('old'), repr(big('replaced'))), (repr('new'), repr(big('new')))])
+            if got[0] != 'ok' or still or not ok:
+                res.violation('a retrying block whose COMMIT had to wait for a reader: expected to wait and commit everything, '
+                              'got %r (reader still active: %s), contents %r' % (got, still, [a[:2] for a in after][:4]), wit)
+                return
+        problems = observe.invariant(db_dir)
+        if problems:
+            res.violation('after a block whose COMMIT had to wait: %r' % problems[:3], wit)
+    finally:
+        probe.set_controller(None)
+        reader.close()
+        try:
+            base.close()
+        except Exception:      # noqa: BLE001
+            pass
+        sc.drop(d)
+
+
 def run_shard(tier, seed, shard, nshards, res):
     dc = common.use_repo()
     probe.install()
@@ -550,6 +641,9 @@ def run_shard(tier, seed, shard, nshards, res):
                 trial_container(dc, sc, res, rng, kind, label)
             if res.counters.get('violations_raw', 0) > 8:
                 return
+        for i in range(6 if tier == 'quick' else 60):
+            rng = common.rng_for(seed, 'c06w', shard, i)
+            block_commit_waiting(dc, sc, res, rng, 'c06 commit waiting seed=%d shard=%d i=%d' % (seed, shard, i))
         probe.reset()
         m = 40 if tier == 'quick' else 500
         for i in range(m):
